@@ -11,6 +11,11 @@ CHECKS = {
    note="Reference = Go strings package on a private alphabet; lengths beyond the bound, element values beyond {1,2,3} and offset/sparse arrays as inputs are outside this check (the latter are exercised for crashes by C10)."),
 }
 
+CHECKS["C01"] = dict(level="model_checking", engine="E1", ref="§2.1, §5 C01",
+   technique="explicit-state search over reachable value representations on the real implementation (states = distinct concrete representations, transitions = set-algebra operators applied to live values), every transition compared with a reference model of finite sets and every state checked for self-consistency",
+   text="Breadth-first search whose states are the distinct Go representations of data values (every construction path of every set of <=2 (quick) / <=3 (thorough) members over a 36-member alphabet with forced index/key collisions, plus operator results) and whose transitions are | & &~ ~~, the 12 subset comparisons, with/without/<:/!<:, count, where, => and ^ applied to live values; each result is compared by denotation with the model and re-checked for self-consistency (count = members, Has agrees with enumeration). Exhaustive within the stated universe and generation bound.",
+   note="Values outside the alphabet and beyond the generation bound are not covered; in the quick tier generation 1 is restricted to one state per (shape class, producing operator). Failures inside three known-broken regions (superimposed items, multi-valued dict keys, byte arrays with gaps) are grouped per region, so a change that only adds failures of an already listed kind inside such a region is not distinguished.")
+
 NOT_YET = {
 }
 
